@@ -82,13 +82,19 @@ def run(c):
                         st, summary["stages"].get(st, 0), summary["valid_cases"]))
 
         # disagreements = violations of C30 observed on the real code
+        c.set("spec_drift_json_form", summary.get("soft_by_sig", {}))
+        if summary.get("cases_soft"):
+            ex = next((r for r in results if any(d.get("soft") for d in r["disagreements"])), None)
+            c.note("SPEC-DRIFT (not a violation): on %d cases the marshalled chart is not the normal form Canon() of "
+                   "Chart.tla predicts although its meaning may be unchanged; e.g. %s" % (
+                       summary["cases_soft"], ex and [d["detail"][:300] for d in ex["disagreements"] if d.get("soft")][:1]))
         for r in results:
-            if not r["disagreements"]:
+            if not any(not d.get("soft") for d in r["disagreements"]):
                 continue
             h, cs = by_id[r["id"]]
             seen_sigs = set()
             for d in r["disagreements"]:
-                if d["sig"] in seen_sigs:
+                if d.get("soft") or d["sig"] in seen_sigs:
                     continue
                 seen_sigs.add(d["sig"])
                 addr_part = (" address " + repr(d.get("address", ""))) if d["sig"].startswith("classify") else ""
